@@ -21,6 +21,14 @@
 (*   GCUsesCapturedMap  : remove's last phase deletes the session entry    *)
 (*        when the map it captured at unlink time is empty, even if the    *)
 (*        session has been re-created since                                *)
+(* Further negative controls (FALSE = the code; both wait for a writer     *)
+(* that may be blocked for good - NothingWaits):                           *)
+(*   AddWaitsForWriter  : Add, replacing a connection of the same peer id, *)
+(*        waits under the hub lock until the old connection's writer has   *)
+(*        finished                                                         *)
+(*   CloseTakesWriteMu  : the close callback CloseSession runs per         *)
+(*        connection takes the connection's write mutex first (a polite    *)
+(*        close frame)                                                     *)
 (***************************************************************************)
 EXTENDS Integers, FiniteSets, Sequences, TLC, Json
 
@@ -32,7 +40,10 @@ CONSTANTS Conns,        \* connection ids (strings)
           NS,           \* number of SendTo operations
           MaxObj,       \* bound on map objects ever created per run
           Track,
-          SendOnClosedPanics, GCUsesCapturedMap
+          SendOnClosedPanics, GCUsesCapturedMap,
+          StuckConns,   \* connections whose peer has stopped reading: once a message was queued for them their
+                        \* writer goroutine sits in the socket write (holding the connection's write mutex) for good
+          AddWaitsForWriter, CloseTakesWriteMu
 
 \* ---- configurations (referenced from the .cfg with `<-`) -------------------------
 \* A: one session, c1 and c2 share a peer id (reconnect), c3 is another peer
@@ -65,10 +76,11 @@ VARIABLES
   panics,    \* number of sends on a closed channel
   replaced,  \* conn was replaced by a later Add with the same peer id
   csDone,    \* session -> CloseSession has unlinked it at least once (history)
+  waits,     \* set of <<operation, conn>>: operations blocked on the writer of a connection that stopped reading
   lastAct, depth
 
 vars == <<mapObj, members, nextObj, byPeer, chan, closed, added, rm, cs, bc, sendsLeft, panics,
-          replaced, csDone, lastAct, depth>>
+          replaced, csDone, waits, lastAct, depth>>
 
 Step(a) == IF Track THEN lastAct' = a /\ depth' = depth + 1 ELSE UNCHANGED <<lastAct, depth>>
 
@@ -87,13 +99,28 @@ Init ==
   /\ panics = 0
   /\ replaced = TLCEval([c \in Conns |-> FALSE])
   /\ csDone = TLCEval([s \in Sessions |-> FALSE])
+  /\ waits = {}
   /\ lastAct = [a |-> "init"] /\ depth = 0
 
 Cur(s) == IF mapObj[s] = 0 THEN {} ELSE members[mapObj[s]]
+\* the writer of c is blocked in the socket write
+WriterBlocked(c) == c \in StuckConns /\ chan[c] # <<>>
+\* an operation that waits while holding the hub lock keeps every other lock region out
+HubLockFree == \A w \in waits : w[1] # "Add"
 
 \* ---- Add: one lock region -------------------------------------------------
+AddBlocks(c) ==
+  /\ AddWaitsForWriter /\ HubLockFree /\ ~added[c]
+  /\ LET old == byPeer[SessOf[c]][PeerOf[c]]
+     IN /\ old # NoConn /\ old # c /\ mapObj[SessOf[c]] # 0 /\ old \in Cur(SessOf[c]) /\ WriterBlocked(old)
+        /\ waits' = waits \cup {<<"Add", old>>}
+  /\ UNCHANGED <<mapObj, members, nextObj, byPeer, chan, closed, added, rm, cs, bc, sendsLeft, panics, replaced, csDone>>
+  /\ Step([a |-> "AddBlocks", c |-> c])
+
 Add(c) ==
-  /\ ~added[c]
+  /\ ~added[c] /\ HubLockFree
+  /\ ~(AddWaitsForWriter /\ LET old == byPeer[SessOf[c]][PeerOf[c]]
+                            IN old # NoConn /\ old # c /\ mapObj[SessOf[c]] # 0 /\ old \in Cur(SessOf[c]) /\ WriterBlocked(old))
   /\ LET s == SessOf[c]
          p == PeerOf[c]
          fresh == mapObj[s] = 0
@@ -109,11 +136,12 @@ Add(c) ==
               /\ replaced' = IF hasOld THEN [replaced EXCEPT ![old] = TRUE] ELSE replaced
               /\ byPeer' = [byPeer EXCEPT ![s][p] = c]
   /\ added' = [added EXCEPT ![c] = TRUE]
-  /\ UNCHANGED <<chan, rm, cs, bc, sendsLeft, panics, csDone>>
+  /\ UNCHANGED <<chan, rm, cs, bc, sendsLeft, panics, csDone, waits>>
   /\ Step([a |-> "Add", c |-> c])
 
 \* ---- remove(): three phases -------------------------------------------------
 RmUnlink(c) ==
+  /\ HubLockFree
   /\ added[c] /\ rm[c].pc = "none"
   /\ LET s == SessOf[c]
          o == mapObj[s]
@@ -123,17 +151,18 @@ RmUnlink(c) ==
           ELSE /\ members' = [members EXCEPT ![o] = @ \ {c}]
                /\ byPeer' = IF byPeer[s][PeerOf[c]] = c THEN [byPeer EXCEPT ![s][PeerOf[c]] = NoConn] ELSE byPeer
                /\ rm' = [rm EXCEPT ![c] = [pc |-> "unlinked", obj |-> o]]
-  /\ UNCHANGED <<mapObj, nextObj, chan, closed, added, cs, bc, sendsLeft, panics, replaced, csDone>>
+  /\ UNCHANGED <<mapObj, nextObj, chan, closed, added, cs, bc, sendsLeft, panics, replaced, csDone, waits>>
   /\ Step([a |-> "RmUnlink", c |-> c])
 
 RmClose(c) ==
   /\ rm[c].pc = "unlinked"
   /\ closed' = [closed EXCEPT ![c] = TRUE]
   /\ rm' = [rm EXCEPT ![c].pc = "closed"]
-  /\ UNCHANGED <<mapObj, members, nextObj, byPeer, chan, added, cs, bc, sendsLeft, panics, replaced, csDone>>
+  /\ UNCHANGED <<mapObj, members, nextObj, byPeer, chan, added, cs, bc, sendsLeft, panics, replaced, csDone, waits>>
   /\ Step([a |-> "RmClose", c |-> c])
 
 RmGC(c) ==
+  /\ HubLockFree
   /\ rm[c].pc = "closed"
   /\ LET s == SessOf[c]
          empty == IF GCUsesCapturedMap THEN members[rm[c].obj] = {}
@@ -143,11 +172,12 @@ RmGC(c) ==
                /\ byPeer' = [byPeer EXCEPT ![s] = [p \in Peers |-> NoConn]]
           ELSE UNCHANGED <<mapObj, byPeer>>
   /\ rm' = [rm EXCEPT ![c].pc = "done"]
-  /\ UNCHANGED <<members, nextObj, chan, closed, added, cs, bc, sendsLeft, panics, replaced, csDone>>
+  /\ UNCHANGED <<members, nextObj, chan, closed, added, cs, bc, sendsLeft, panics, replaced, csDone, waits>>
   /\ Step([a |-> "RmGC", c |-> c])
 
 \* ---- CloseSession: unlink, then close each ------------------------------------
 CsUnlink(s) ==
+  /\ HubLockFree
   /\ cs[s].pc = "none"
   /\ IF mapObj[s] = 0
        THEN /\ cs' = [cs EXCEPT ![s] = [pc |-> "done", todo |-> {}]]
@@ -156,26 +186,36 @@ CsUnlink(s) ==
             /\ mapObj' = [mapObj EXCEPT ![s] = 0]
             /\ byPeer' = [byPeer EXCEPT ![s] = [p \in Peers |-> NoConn]]
             /\ csDone' = [csDone EXCEPT ![s] = TRUE]
-  /\ UNCHANGED <<members, nextObj, chan, closed, added, rm, bc, sendsLeft, panics, replaced>>
+  /\ UNCHANGED <<members, nextObj, chan, closed, added, rm, bc, sendsLeft, panics, replaced, waits>>
   /\ Step([a |-> "CsUnlink", s |-> s])
+
+CsCloseBlocks(s, c) ==
+  /\ CloseTakesWriteMu /\ cs[s].pc = "closing" /\ c \in cs[s].todo /\ WriterBlocked(c) /\ <<"CloseSession", c>> \notin waits
+  /\ \A w \in waits : w[1] # "CloseSession"
+  /\ waits' = waits \cup {<<"CloseSession", c>>}
+  /\ UNCHANGED <<mapObj, members, nextObj, byPeer, chan, closed, added, rm, cs, bc, sendsLeft, panics, replaced, csDone>>
+  /\ Step([a |-> "CsCloseBlocks", s |-> s, c |-> c])
 
 CsClose(s, c) ==
   /\ cs[s].pc = "closing" /\ c \in cs[s].todo
+  /\ ~(CloseTakesWriteMu /\ WriterBlocked(c))
+  /\ \A w \in waits : w[1] # "CloseSession"            \* the loop is sequential: stuck at one connection, it does not reach the next
   /\ closed' = [closed EXCEPT ![c] = TRUE]
   /\ LET rest == cs[s].todo \ {c}
      IN cs' = [cs EXCEPT ![s] = [pc |-> IF rest = {} THEN "done" ELSE "closing", todo |-> rest]]
-  /\ UNCHANGED <<mapObj, members, nextObj, byPeer, chan, added, rm, bc, sendsLeft, panics, replaced, csDone>>
+  /\ UNCHANGED <<mapObj, members, nextObj, byPeer, chan, added, rm, bc, sendsLeft, panics, replaced, csDone, waits>>
   /\ Step([a |-> "CsClose", s |-> s, c |-> c])
 
 \* ---- Broadcast / BroadcastExcept: copy under RLock, then send outside it -------
 \* ex = NoConn: Broadcast; ex = a peer id: BroadcastExcept(ex)
 BcCopy(b, s, ex) ==
+  /\ HubLockFree
   /\ bc[b].pc = "idle"
   /\ LET exConn == IF ex = NoConn THEN NoConn ELSE byPeer[s][ex]
          list == Cur(s) \ {exConn}
      IN bc' = [bc EXCEPT ![b] = [pc |-> IF mapObj[s] = 0 \/ list = {} THEN "done" ELSE "sending",
                                 s |-> s, todo |-> IF mapObj[s] = 0 THEN {} ELSE list, msg |-> b]]
-  /\ UNCHANGED <<mapObj, members, nextObj, byPeer, chan, closed, added, rm, cs, sendsLeft, panics, replaced, csDone>>
+  /\ UNCHANGED <<mapObj, members, nextObj, byPeer, chan, closed, added, rm, cs, sendsLeft, panics, replaced, csDone, waits>>
   /\ Step([a |-> "BcCopy", b |-> b, s |-> s, ex |-> ex])
 
 BcSend(b, c) ==
@@ -190,11 +230,12 @@ BcSend(b, c) ==
          aborted == closed[c] /\ SendOnClosedPanics   \* the panic unwinds the broadcasting goroutine
      IN bc' = [bc EXCEPT ![b].todo = IF aborted THEN {} ELSE rest,
                          ![b].pc = IF aborted \/ rest = {} THEN "done" ELSE "sending"]
-  /\ UNCHANGED <<mapObj, members, nextObj, byPeer, closed, added, rm, cs, sendsLeft, replaced, csDone>>
+  /\ UNCHANGED <<mapObj, members, nextObj, byPeer, closed, added, rm, cs, sendsLeft, replaced, csDone, waits>>
   /\ Step([a |-> "BcSend", b |-> b, c |-> c])
 
 \* ---- SendTo: one RLock region ---------------------------------------------------
 SendTo(s, p) ==
+  /\ HubLockFree
   /\ sendsLeft > 0
   /\ sendsLeft' = sendsLeft - 1
   /\ LET c == byPeer[s][p]
@@ -204,11 +245,11 @@ SendTo(s, p) ==
                  THEN panics' = panics + 1 /\ UNCHANGED chan
                  ELSE chan' = [chan EXCEPT ![c] = Append(@, <<"s", sendsLeft>>)] /\ UNCHANGED panics
           ELSE UNCHANGED <<chan, panics>>
-  /\ UNCHANGED <<mapObj, members, nextObj, byPeer, closed, added, rm, cs, bc, replaced, csDone>>
+  /\ UNCHANGED <<mapObj, members, nextObj, byPeer, closed, added, rm, cs, bc, replaced, csDone, waits>>
   /\ Step([a |-> "SendTo", s |-> s, p |-> p])
 
-Next == \/ \E c \in Conns : Add(c) \/ RmUnlink(c) \/ RmClose(c) \/ RmGC(c)
-        \/ \E s \in Sessions : CsUnlink(s) \/ \E c \in Conns : CsClose(s, c)
+Next == \/ \E c \in Conns : Add(c) \/ AddBlocks(c) \/ RmUnlink(c) \/ RmClose(c) \/ RmGC(c)
+        \/ \E s \in Sessions : CsUnlink(s) \/ \E c \in Conns : CsClose(s, c) \/ CsCloseBlocks(s, c)
         \/ \E b \in BIds, s \in Sessions, ex \in {NoConn} \cup Peers : BcCopy(b, s, ex)
         \/ \E b \in BIds, c \in Conns : BcSend(b, c)
         \/ \E s \in Sessions, p \in Peers : SendTo(s, p)
@@ -217,6 +258,8 @@ Spec == Init /\ [][Next]_vars
 
 \* ---- properties ------------------------------------------------------------
 NoPanic == panics = 0
+\* no hub operation (and with it no handler of any other peer) waits for the writer of a peer that stopped reading
+NothingWaits == waits = {}
 
 \* a connection that joined, has not started to leave, was not replaced and whose
 \* session was not closed is a member of the session's current map and is what
@@ -255,14 +298,14 @@ Proj == [present |-> [s \in Sessions |-> mapObj[s] # 0],
          chan |-> chan,
          closed |-> closed,
          panics |-> panics]
-View == <<mapObj, members, nextObj, byPeer, chan, closed, added, rm, cs, bc, sendsLeft, panics, replaced, csDone>>
+View == <<mapObj, members, nextObj, byPeer, chan, closed, added, rm, cs, bc, sendsLeft, panics, replaced, csDone, waits>>
 \* state key for the replay graph: records are flattened to tuples because TLC
 \* prints record fields in construction order, which is not canonical
 KeyView == <<mapObj, members, nextObj, byPeer, chan, closed, added,
              [c \in Conns |-> <<rm[c].pc, rm[c].obj>>],
              [s \in Sessions |-> <<cs[s].pc, cs[s].todo>>],
              [b \in BIds |-> <<bc[b].pc, bc[b].s, bc[b].todo, bc[b].msg>>],
-             sendsLeft, panics, replaced, csDone>>
+             sendsLeft, panics, replaced, csDone, waits>>
 Emit == PrintT("E " \o ToJson([pre |-> Proj, act |-> lastAct', post |-> Proj', d |-> depth',
                                pk |-> ToString(KeyView), qk |-> ToString(KeyView')]))
 =============================================================================
